@@ -185,6 +185,10 @@ class HttpSim:
             # a real server aborts the response: the client sees whatever was
             # sent so far, then the connection closes
             self.server_errors.append(type(e).__name__ + ": " + str(e)[:200])
+            import os as _os
+            if _os.environ.get("VERIF_DEBUG_TB"):
+                import traceback
+                traceback.print_exc()
             sim.stat("probe:http_server_exception")
             st.setdefault("status", 500)
             st.setdefault("headers", {})
